@@ -1,14 +1,14 @@
 package main
 
 import (
-	"runtime"
-	"runtime/debug"
 	"crypto/sha256"
 	"encoding/hex"
 	"encoding/json"
 	"fmt"
 	"os"
 	"path/filepath"
+	"runtime"
+	"runtime/debug"
 )
 
 type taggedScen struct {
@@ -343,29 +343,29 @@ func genC18(r *rng, tier string, st *stats) []taggedScen {
 							continue
 						}
 						for _, inFlow := range []bool{false, true} {
-						  for conc := 0; conc <= 2; conc++ {
-							b := newSB()
-							x := b.add(NodeDef{Kind: "batch", Impl: impl, Retry: retry(1, 0), Fb: "default",
-								Prep: sh.style, Exec: "res", Post: post, ExplicitCfg: n%2 == 1, Conc: conc})
-							if sh.mk != nil {
-								b.script(x, "prep", 0, []Resp{sh.mk(b, n)}, rOk(vNil()))
+							for conc := 0; conc <= 2; conc++ {
+								b := newSB()
+								x := b.add(NodeDef{Kind: "batch", Impl: impl, Retry: retry(1, 0), Fb: "default",
+									Prep: sh.style, Exec: "res", Post: post, ExplicitCfg: n%2 == 1, Conc: conc})
+								if sh.mk != nil {
+									b.script(x, "prep", 0, []Resp{sh.mk(b, n)}, rOk(vNil()))
+								}
+								b.script(x, "exec", 0, []Resp{}, rOk(vRes(b.tok())))
+								if post == "batch" {
+									b.script(x, "post", 0, []Resp{rAct(a)}, rAct(a))
+								}
+								tags := []string{"kind=batch/" + impl, "prep=" + sh.name, fmt.Sprintf("items=%d", n), fmt.Sprintf("post_action=%d", a), fmt.Sprintf("conc=%d", conc)}
+								if inFlow {
+									y := marker(b)
+									z := marker(b)
+									f := b.flow(x, [][]int{{x, 1, y}, {x, 5, z}})
+									b.sc.Root = f
+									tags = append(tags, "in_flow")
+								} else {
+									b.sc.Root = x
+								}
+								add(b, tags, a == 0)
 							}
-							b.script(x, "exec", 0, []Resp{}, rOk(vRes(b.tok())))
-							if post == "batch" {
-								b.script(x, "post", 0, []Resp{rAct(a)}, rAct(a))
-							}
-							tags := []string{"kind=batch/" + impl, "prep=" + sh.name, fmt.Sprintf("items=%d", n), fmt.Sprintf("post_action=%d", a), fmt.Sprintf("conc=%d", conc)}
-							if inFlow {
-								y := marker(b)
-								z := marker(b)
-								f := b.flow(x, [][]int{{x, 1, y}, {x, 5, z}})
-								b.sc.Root = f
-								tags = append(tags, "in_flow")
-							} else {
-								b.sc.Root = x
-							}
-							add(b, tags, a == 0)
-						  }
 						}
 					}
 				}
